@@ -65,6 +65,14 @@ pub fn run(ctx: &Ctx) -> CheckResult {
     for n in 1..=4usize {
         spaces.push(Space { cfg: Cfg::p1(Kind::Mfi, n), alphabet: mfi_bars.clone(), depth: if th { 10 } else { 8 }, label: "B_mfi" });
     }
+    // MFI re-used through reset(): a full window (n+1 bars) before and after the reset
+    let mfi_reset = with_reset(mfi_bars.clone());
+    let mfi_reset4: Vec<Op> = with_reset(vec![mfi_bars[0], mfi_bars[2], mfi_bars[3]]);
+    for n in 1..=(if th { 4usize } else { 3 }) {
+        let depth = 2 * n + 3;
+        let small = depth > 7 && !(th && n == 3);
+        spaces.push(Space { cfg: Cfg::p1(Kind::Mfi, n), alphabet: if small { mfi_reset4.clone() } else { mfi_reset.clone() }, depth, label: "B_mfi+reset" });
+    }
     // the same alphabets in a tiny price unit (2^-60): absolute epsilons / thresholds become visible
     let tiny_pos = with_reset(s_ops(&S_TINY));
     let tiny_grid = b_ops(&scale_bars(&b_grid(), TINY));
